@@ -2607,4 +2607,20 @@ br_cpuid(uint32_t mask_eax, uint32_t mask_ebx,
 
 /* ==================================================================== */
 
+
+/*
+ * Verification hooks (static analysis only): add-only declassification marks at
+ * the places where the source itself declares a secret-derived value public.
+ * With BR_VERIF_HOOKS undefined (the default) they expand to nothing.
+ */
+#ifdef BR_VERIF_HOOKS
+extern uint64_t br_verif_public64(uint64_t);
+extern void br_verif_public_mem(const void *, size_t);
+#define BR_VERIF_PUBLIC(x)        ((x) = (__typeof__(x))br_verif_public64((uint64_t)(x)))
+#define BR_VERIF_PUBLIC_MEM(p, n) br_verif_public_mem((p), (n))
+#else
+#define BR_VERIF_PUBLIC(x)        ((void)0)
+#define BR_VERIF_PUBLIC_MEM(p, n) ((void)0)
+#endif
+
 #endif
